@@ -258,7 +258,7 @@ func (g *gen) genTree(label string) *treeBuild {
 	return tb
 }
 
-var faultKinds = []string{"trunc_rehash", "trunc_boundary_rehash", "corrupt_rehash", "insert_rehash", "trunc_stale", "corrupt_stale", "extend_stale", "not_a_tree", "read_error", "unknown_field"}
+var faultKinds = []string{"trunc_rehash", "trunc_boundary_rehash", "corrupt_rehash", "insert_rehash", "trunc_stale", "trunc_boundary_stale", "corrupt_stale", "replace_stale", "extend_stale", "not_a_tree", "read_error", "unknown_field"}
 
 // lastTopLevelField locates the last field of a marshalled message that
 // uses the length-delimited wire type.
@@ -282,6 +282,106 @@ func lastTopLevelField(b []byte) (start, header int, payload []byte) {
 	return
 }
 
+// topLevelFieldStarts returns the offsets at which the top-level fields of a
+// marshalled message start (every one of them is a cut that leaves a
+// complete, shorter message).
+func topLevelFieldStarts(b []byte) []int {
+	var starts []int
+	for off := 0; off < len(b); {
+		starts = append(starts, off)
+		_, _, n := protowire.ConsumeField(b[off:])
+		if n < 0 {
+			break
+		}
+		off += n
+	}
+	return starts
+}
+
+// sameSizeTree returns a marshalled Tree that differs from orig in one
+// place (the object a file refers to, a file name, a symlink target, a
+// directory name) and has exactly the same length, or nil if orig offers no
+// such place.
+func (g *gen) sameSizeTree(orig []byte) []byte {
+	var tree remoteexecution.Tree
+	if proto.Unmarshal(orig, &tree) != nil {
+		return nil
+	}
+	var edits []func()
+	flip := func(s *string) {
+		if len(*s) > 0 {
+			edits = append(edits, func() {
+				c := byte('q')
+				if (*s)[0] == c {
+					c = 'r'
+				}
+				*s = string([]byte{c}) + (*s)[1:]
+			})
+		}
+	}
+	dirs := append([]*remoteexecution.Directory(nil), tree.Children...)
+	if tree.Root != nil {
+		dirs = append(dirs, tree.Root)
+	}
+	for _, d := range dirs {
+		for _, f := range d.Files {
+			flip(&f.Name)
+			if f.Digest != nil && len(f.Digest.Hash) == hashHexLen[g.fn] {
+				f := f
+				edits = append(edits, func() {
+					// another object: either one the universe may hold
+					// ("content-k") or one nobody ever stored
+					k := g.n(0, 11, "fault/other")
+					h := hashHex(g.fn, []byte(fmt.Sprintf("content-%d", k)))
+					if h == f.Digest.Hash {
+						h = hashHex(g.fn, []byte("replaced"))
+					}
+					f.Digest.Hash = h
+				})
+			}
+		}
+		for _, l := range d.Symlinks {
+			flip(&l.Target)
+		}
+		for _, c := range d.Directories {
+			flip(&c.Name)
+		}
+	}
+	if len(edits) == 0 {
+		return nil
+	}
+	edits[g.n(0, len(edits)-1, "fault/edit")]()
+	mut := mustMarshal(&tree)
+	if len(mut) != len(orig) || string(mut) == string(orig) {
+		return nil
+	}
+	return mut
+}
+
+// drawVia decides, for a case served through the real read-buffer factory,
+// by which of its constructors every Tree object is handed out. An object
+// whose stream is to fail cannot be a byte slice.
+func (g *gen) drawVia(streamed map[digest.Digest]serveSpec) map[digest.Digest]viaSpec {
+	via := map[digest.Digest]viaSpec{}
+	for i, d := range g.order {
+		if !g.isTree[d] {
+			via[d] = viaSpec{method: "slice"}
+			continue
+		}
+		l := fmt.Sprintf("via/%d", i)
+		v := viaSpec{method: rapid.SampledFrom([]string{"readerat", "readerat", "reader", "slice"}).Draw(g.t, l)}
+		if s, ok := streamed[d]; ok && s.failAfter >= 0 && v.method == "slice" {
+			v.method = "readerat"
+		}
+		if v.method == "readerat" {
+			v.sizeFromDigest = g.n(0, 1, l+"/size") == 1
+			v.eofAtEnd = g.n(0, 1, l+"/eof") == 1
+		}
+		via[d] = v
+	}
+	return via
+}
+
 func appendVarint(b []byte, v uint64) []byte {
 	for v >= 0x80 {
 		b = append(b, byte(v)|0x80)
@@ -292,7 +392,10 @@ func appendVarint(b []byte, v uint64) []byte {
 
 // applyFault damages one Tree. Variants "*_rehash", "not_a_tree" and
 // "unknown_field" store the damaged bytes under their own (valid) digest;
-// "*_stale" leave the damaged bytes under the digest of the original;
+// "*_stale" leave the damaged bytes under the digest of the original
+// ("trunc_boundary_stale": cut between two top-level fields, so that what
+// is left is a complete, shorter Tree; "replace_stale": a different Tree of
+// exactly the same size);
 // "read_error" makes the CAS fail while streaming the object.
 func (g *gen) applyFault(tb *treeBuild, kind string, streamed map[digest.Digest]serveSpec, unreadable map[digest.Digest]bool, failErr error) {
 	orig := tb.bytes
@@ -325,6 +428,16 @@ func (g *gen) applyFault(tb *treeBuild, kind string, streamed map[digest.Digest]
 			return
 		}
 		mut = append([]byte(nil), orig[:start+header+cuts[g.n(0, len(cuts)-1, "fault/cut")]]...)
+	case "trunc_boundary_stale":
+		cuts := topLevelFieldStarts(orig)
+		if len(cuts) == 0 {
+			return
+		}
+		mut = append([]byte(nil), orig[:cuts[g.n(0, len(cuts)-1, "fault/cut")]]...)
+	case "replace_stale":
+		if mut = g.sameSizeTree(orig); mut == nil {
+			return
+		}
 	case "corrupt_rehash", "corrupt_stale":
 		if len(orig) == 0 {
 			return
@@ -388,7 +501,7 @@ func (g *gen) applyFault(tb *treeBuild, kind string, streamed map[digest.Digest]
 		return
 	}
 	switch kind {
-	case "trunc_stale", "corrupt_stale", "extend_stale":
+	case "trunc_stale", "trunc_boundary_stale", "corrupt_stale", "replace_stale", "extend_stale":
 		g.universe[origDigest] = mut
 	default:
 		tb.bytes = mut
